@@ -187,7 +187,7 @@ def showOutcome (st : St) (o : Outcome) : St × String :=
 
 def knownOps : List String :=
   ["create", "append", "overwrite", "delete", "compact", "index", "tag", "untag", "config", "dappend", "orphan", "begin",
-   "commit", "hold", "restore", "cleanup", "cleanp", "cleanr"]
+   "commit", "hold", "restore", "cleanup", "cleanp", "cleanr", "race"]
 
 def okOrphanPath (p : String) : Bool :=
   !p.isEmpty && !p.startsWith "/" && !p.endsWith "/" && (p.splitOn "//").length = 1 && (p.splitOn "..").length = 1
@@ -203,6 +203,10 @@ def argsOk (op : String) (toks : List String) : Bool :=
   else if op = "config" then (arg toks "i").isSome && (arg toks "o").isSome && (arg toks "r").isSome
   else if op = "orphan" then (match arg toks "p" with | some p => okOrphanPath p | none => false)
   else if op = "hold" then (argNat toks "v").isSome
+  else if op = "race" then
+    (match arg toks "kind" with
+     | some k => k = "append" || k = "overwrite" || k = "delete" || k = "restore"
+     | none => false) && (argBool toks "unv").isSome && (argBool toks "late").isSome && (argNat toks "seed").isSome
   else if op = "cleanup" then
     (handleArg toks).isSome && (argInt toks "older").isSome && (argOptBool toks "unv").isSome && (argOptBool toks "err").isSome
   else if op = "cleanp" then
@@ -255,6 +259,11 @@ def step (st : St) (line : String) : St × String :=
       if t < 0 ∨ t > 100000 * 86400 then (st, "err parse")
       else if !knownOps.contains op then (st, "err parse")
       else if !argsOk op toks then (st, "err parse")
+      else if op = "race" then
+        -- cleanup ∥ one writer on a table of its own: in the region of `race_safe` (an appending / rewriting writer with
+        -- new, young files, `delete_unverified` off) the outcome is determined: the writer fails or its version is complete
+        (st, if arg toks "kind" ≠ some "restore" ∧ argBool toks "unv" = some false ∧ argBool toks "late" = some false
+             then "race safe" else "race unconstrained")
       else if op ≠ "create" ∧ !st.tableExists then (st, "err no_table")
       else if op = "create" ∧ st.tableExists then (st, "err exists")
       else if op = "cleanup" ∨ op = "cleanp" ∨ op = "cleanr" then cleanupOp st op toks t
